@@ -18,6 +18,12 @@ from . import lib
 
 
 def run_check(mod, tier, seed, replay=None):
+    # one run of a property's check at a time (Coq case files and generated crates are keyed by the property)
+    with lib.Lock("check_" + mod.PROP + ("_alt" if os.environ.get("VERIF_REPO") else "")):
+        return _run_check(mod, tier, seed, replay)
+
+
+def _run_check(mod, tier, seed, replay=None):
     t0 = time.time()
     prop = mod.PROP
     print("== %s %s seed=%d repo=%s" % (prop, tier, seed, lib.repo_state().splitlines()[0][:12]))
